@@ -49,7 +49,7 @@ def generate(ctx, name, *, max_calls, fns, rec_modes, nopts, simulate=None):
     cfg = sc.session_cfg(ctx, name, max_calls=max_calls, fns=fns, rec_modes=rec_modes, nopts=nopts, track=False,
                          emit=True, invariants=["ProvPerCall"], properties=[] if simulate else ["AppendOnly"])
     if simulate:
-        r = ctx.tlc("Session", cfg, workers=4, simulate={"num": simulate}, depth=30 * max_calls, timeout=1500)
+        r = ctx.tlc("Session", cfg, workers=1, simulate={"num": simulate}, depth=30 * max_calls, timeout=1500)
     else:
         r = ctx.tlc("Session", cfg, workers=8, timeout=1500,
                     required_actions=("Begin", "RecordProv", "Preprocess", "Return", "MdRun"))
@@ -78,10 +78,8 @@ def replay_tree(ctx, steps, ts0, events, meta, label):
         ctx.evaluations += 1
         meta[(rec.tid, 1)] = {"recipe": {"hist": hist}, "exc": repr(obs.exc) if obs.exc else None}
         if not obs.ok:
-            ctx.count("history_calls_failed")
-            ctx.extra.setdefault("history_failures", {})
-            k2 = f"{fn_name}:{type(obs.exc).__name__}"
-            ctx.extra["history_failures"][k2] = ctx.extra["history_failures"].get(k2, 0) + 1
+            if not obs.event["prov"]["raised"]:  # failures inside provenance recording are judged by SessionTrace
+                sc.note_failure(ctx, PID, label, fn_name, rec.tid, obs, meta[(rec.tid, 1)])
             continue
         ctx.nontriv(key)
         got = len(obs.after.prov) - n0
@@ -175,19 +173,19 @@ def run(ctx):
     ctx.exhaustive = True
     ts0 = history_input(ctx.seed)
     events, meta = [], {}
-    replay_tree(ctx, steps, ts0, events, meta, "history")
-    linear_sessions(ctx, steps, ts0, events, meta, 10 if q else 60)
+    with sc.phase(ctx, "replay"):
+        replay_tree(ctx, steps, ts0, events, meta, "history")
+        linear_sessions(ctx, steps, ts0, events, meta, 10 if q else 60)
     # the default (record_provenance not passed) and longer histories: simulated behaviours
     sim = generate(ctx, "c33_sim", max_calls=3 if q else 4, fns=fns, rec_modes=["on", "off", "default"], nopts=4,
-                   simulate=40 if q else 700)
+                   simulate=40 if q else 500)
     ctx.count("simulated_history_steps", len(sim))
     replay_tree(ctx, sim, ts0, events, meta, "simulated")
     if not q:
         linear_sessions(ctx, sim, ts0, events, meta, 60, label="simsession")
-    sc.judge(ctx, PID, CHECKS, events, meta, "history")
-    ev2, meta2 = [], {}
-    value_calls(ctx, ts0, ev2, meta2)
-    sc.judge(ctx, PID, CHECKS, ev2, meta2, "values")
+    sc.require_results(ctx, events)
+    value_calls(ctx, ts0, events, meta)
+    sc.judge(ctx, PID, CHECKS, events, meta, lambda ev: ev["tid"].split(":")[0])
     if not q:
         evs, rc, tail = sc.run_suite(ctx, ["tests/test_provenance.py", "tests/test_inference.py", "tests/test_util.py",
                                            "tests/test_noncontemporary.py", "tests/test_cli.py", "tests/test_phasing.py"])
